@@ -8,6 +8,7 @@ import (
 	"go/constant"
 	"go/token"
 	"go/types"
+	"regexp"
 	"strings"
 )
 
@@ -44,12 +45,23 @@ func (t *loopTr) expr(e ast.Expr) (string, lkind) {
 		if x.Op == token.SHL || x.Op == token.SHR {
 			return t.shift(e, x.Op, a, ak, x.Y), ak
 		}
+		n := len(t.checks)
 		b, bk := t.expr(x.Y)
+		if x.Op == token.LAND || x.Op == token.LOR {
+			// the right operand is only evaluated (and can only panic) when the left one does not decide
+			for i := n; i < len(t.checks); i++ {
+				if x.Op == token.LAND {
+					t.checks[i] = "(!" + a + " || " + t.checks[i] + ")"
+				} else {
+					t.checks[i] = "(" + a + " || " + t.checks[i] + ")"
+				}
+			}
+		}
 		return t.binop(e, x.Op, a, ak, b, bk)
 	case *ast.IndexExpr:
-		a, i, ak := t.index(x)
+		a, i, ak, _ := t.index(x)
 		ek := ak.elem()
-		return fmt.Sprintf("(%s.getD %s.toNat 0#%d)", a, i, ek.width()), ek
+		return fmt.Sprintf("(%s.getD %s 0#%d)", a, i, ek.width()), ek
 	case *ast.CompositeLit:
 		k := t.kindOf(tv.Type, e)
 		if !k.isSlice() {
@@ -75,16 +87,34 @@ func (t *loopTr) expr(e ast.Expr) (string, lkind) {
 }
 
 func (t *loopTr) ident(x *ast.Ident) (string, lkind) {
+	s, k := t.listIdent(x)
+	if _, isArr := arrayLen(t.info.Uses[x].Type()); isArr {
+		t.fail(x, "the array pointer %s may only be indexed (p[i]) or measured (len(p))", x.Name)
+	}
+	return s, k
+}
+
+// listIdent is ident without the restriction on array pointers (for the operand of an index expression).
+func (t *loopTr) listIdent(x *ast.Ident) (string, lkind) {
 	o := t.info.Uses[x]
+	if _, isNil := o.(*types.Nil); isNil {
+		return "(none : Option String)", kErr
+	}
 	v, ok := o.(*types.Var)
 	if !ok {
 		t.fail(x, "unsupported identifier %s", x.Name)
 	}
 	k := t.kindOf(v.Type(), x)
 	if name, ok := t.vars[o]; ok {
+		if t.pairBuf[o] {
+			return name + ".2", k
+		}
 		return name, k
 	}
 	if v.Parent() == t.set.tp.tpkg.Scope() {
+		if k == kErr {
+			return t.set.errVar(t, v, x), k
+		}
 		return t.set.pkgVar(t, v, x), k
 	}
 	t.fail(x, "unknown variable %s", x.Name)
@@ -105,6 +135,13 @@ func (t *loopTr) shiftCount(y ast.Expr) string {
 	if !k.isNum() {
 		t.fail(y, "shift count is not an integer")
 	}
+	if k.isSigned() && t.flowFn {
+		// a negative count panics
+		if k != kInt {
+			t.fail(y, "shift count of type %s", tv.Type)
+		}
+		t.addCheck("(Go.nonneg " + s + ")")
+	}
 	return s + ".toNat"
 }
 
@@ -116,7 +153,7 @@ func (t *loopTr) shift(at ast.Node, op token.Token, a string, ak lkind, y ast.Ex
 	switch {
 	case op == token.SHL:
 		return "(" + a + " <<< " + n + ")"
-	case ak == kInt:
+	case ak.isSigned():
 		return "(BitVec.sshiftRight " + a + " " + n + ")"
 	}
 	return "(" + a + " >>> " + n + ")"
@@ -145,7 +182,7 @@ func (t *loopTr) binop(at ast.Node, op token.Token, a string, ak lkind, b string
 			return "(" + a + " " + s + " " + b + ")", ak
 		}
 		lt, le := "BitVec.ult", "BitVec.ule"
-		if ak == kInt {
+		if ak.isSigned() {
 			lt, le = "BitVec.slt", "BitVec.sle"
 		}
 		switch op {
@@ -165,34 +202,51 @@ func (t *loopTr) binop(at ast.Node, op token.Token, a string, ak lkind, b string
 			return "(" + le + " " + b + " " + a + ")", kBool
 		}
 	}
+	if ak == kErr {
+		t.fail(at, "comparison of errors is not supported")
+	}
 	t.fail(at, "unsupported operator %s on %s", op, ak.lean())
 	return "", 0
 }
 
-// index checks that a[i] is in range by construction and returns the texts of a and i.
-func (t *loopTr) index(x *ast.IndexExpr) (string, string, lkind) {
-	aid, ok1 := unparen(x.X).(*ast.Ident)
-	iid, ok2 := unparen(x.Index).(*ast.Ident)
-	if !ok1 || !ok2 {
-		t.fail(x, "index expression %s: only variable[variable] is supported", t.p.src(x))
-	}
-	ao, io := t.info.Uses[aid], t.info.Uses[iid]
-	ok := false
-	for _, l := range t.loops {
-		if l.key != nil && l.key == io && l.rng == ao && !l.plain[io] && !l.plain[ao] {
-			ok = true
-		}
-	}
+// index returns the texts of the list a and of the index (a Nat) of a[i], its carrier and the object of a.
+// Unless the index is in range by construction (i is the key of an enclosing `for i := range a` in which
+// neither is reassigned), the bounds check is registered.
+func (t *loopTr) index(x *ast.IndexExpr) (string, string, lkind, types.Object) {
+	aid, ok := unparen(x.X).(*ast.Ident)
 	if !ok {
-		t.fail(x, "cannot establish that the index of %s is in range: %s must be the key of an enclosing `for %s := range %s` in which neither is reassigned",
-			t.p.src(x), iid.Name, iid.Name, aid.Name)
+		t.fail(x, "index expression %s: only variable[index] is supported", t.p.src(x))
 	}
-	a, ak := t.ident(aid)
-	i, _ := t.ident(iid)
+	ao := t.info.Uses[aid]
+	a, ak := t.listIdent(aid)
 	if !ak.isSlice() {
 		t.fail(x, "indexing of %s", ak.lean())
 	}
-	return a, i, ak
+	if t.safe[x] {
+		i, _ := t.ident(unparen(x.Index).(*ast.Ident))
+		return a, i + ".toNat", ak, ao
+	}
+	length := a + ".length"
+	if n, isArr := arrayLen(ao.Type()); isArr {
+		length = fmt.Sprint(n)
+	}
+	if c, isConst := t.constInt(x.Index); isConst {
+		if c.Sign() < 0 {
+			t.fail(x, "negative constant index")
+		}
+		t.addCheck(fmt.Sprintf("(decide (%s < %s))", c, length))
+		return a, c.String(), ak, ao
+	}
+	i, ik := t.expr(x.Index)
+	switch ik {
+	case kInt:
+		t.addCheck(fmt.Sprintf("(Go.inRangeS %s %s)", i, length))
+	case kUint:
+		t.addCheck(fmt.Sprintf("(Go.inRangeU %s %s)", i, length))
+	default:
+		t.fail(x, "index of type %s (only int, uint and constants are supported)", t.typeOf(x.Index).Type)
+	}
+	return a, i + ".toNat", ak, ao
 }
 
 // noAlias rejects a bare slice variable where a second reference to its backing array would be created.
@@ -216,6 +270,9 @@ func (t *loopTr) call(x *ast.CallExpr) (string, lkind) {
 		t.noAlias(x.Args[0], "conversion")
 		s, from := t.expr(x.Args[0])
 		return t.convert(x, s, from, to), to
+	}
+	if sel, ok := unparen(x.Fun).(*ast.SelectorExpr); ok {
+		return t.libCall(x, sel)
 	}
 	id, ok := unparen(x.Fun).(*ast.Ident)
 	if !ok {
@@ -243,6 +300,9 @@ func (t *loopTr) call(x *ast.CallExpr) (string, lkind) {
 		if !t.set.done[o.Name()] {
 			t.fail(x, "call of %s, which has not been translated before this function", o.Name())
 		}
+		if t.set.flowFns[o.Name()] {
+			t.fail(x, "call of %s, which may panic or writes into a parameter: such calls are not supported", o.Name())
+		}
 		if x.Ellipsis.IsValid() {
 			t.fail(x, "variadic call")
 		}
@@ -267,9 +327,13 @@ func (t *loopTr) convert(at ast.Node, s string, from, to lkind) string {
 		return s // same bits
 	case from == kString && to == kBytes:
 		return s // the bytes of the string (a copy in Go)
+	case from == kByte && to == kInt8, from == kInt8 && to == kByte:
+		return s // same bits
 	case from == kByte && (to == kInt || to == kUint):
 		return "(BitVec.setWidth 64 " + s + ")" // zero extension
-	case (from == kInt || from == kUint) && to == kByte:
+	case from == kInt8 && (to == kInt || to == kUint):
+		return "(BitVec.signExtend 64 " + s + ")" // sign extension
+	case (from == kInt || from == kUint) && (to == kByte || to == kInt8):
 		return "(BitVec.setWidth 8 " + s + ")" // truncation
 	}
 	t.fail(at, "unsupported conversion %s -> %s", from.lean(), to.lean())
@@ -360,6 +424,104 @@ func (t *loopTr) makeCall(x *ast.CallExpr) (string, lkind) {
 		t.fail(x, "length is not an integer")
 	}
 	return "(List.replicate " + n + ".toNat " + zero + ")", k
+}
+
+// libCall translates the supported functions of the standard library.
+func (t *loopTr) libCall(x *ast.CallExpr, sel *ast.SelectorExpr) (string, lkind) {
+	f, ok := t.info.Uses[sel.Sel].(*types.Func)
+	if !ok || f.Pkg() == nil {
+		t.fail(x, "unsupported call %s", t.p.src(x))
+	}
+	switch f.Pkg().Path() + "." + f.Name() {
+	case "math/bits.TrailingZeros":
+		if len(x.Args) != 1 {
+			t.fail(x, "arity")
+		}
+		s, k := t.expr(x.Args[0])
+		if k != kUint {
+			t.fail(x, "argument type")
+		}
+		return "(Go.trailingZeros64 " + s + ")", kInt
+	case "fmt.Errorf":
+		// fmt.Errorf("…%w…", …, ErrX, …): an error that wraps the package variable ErrX; the text is not modelled,
+		// the other arguments are only evaluated
+		if len(x.Args) < 2 || x.Ellipsis.IsValid() {
+			t.fail(x, "unsupported call %s", t.p.src(x))
+		}
+		tv := t.typeOf(x.Args[0])
+		if tv.Value == nil || tv.Value.Kind() != constant.String {
+			t.fail(x, "fmt.Errorf with a non-constant format")
+		}
+		verbs := regexp.MustCompile(`%[-+# 0]*[0-9]*(?:\.[0-9]+)?[a-zA-Z%]`).FindAllString(constant.StringVal(tv.Value), -1)
+		arg, res := 1, ""
+		for _, v := range verbs {
+			if v == "%%" {
+				continue
+			}
+			if arg >= len(x.Args) {
+				t.fail(x, "fmt.Errorf: more verbs than arguments")
+			}
+			if v == "%w" {
+				if res != "" {
+					t.fail(x, "fmt.Errorf with more than one %%w")
+				}
+				s, k := t.expr(x.Args[arg])
+				if _, isId := unparen(x.Args[arg]).(*ast.Ident); k != kErr || !isId {
+					t.fail(x, "fmt.Errorf: the operand of %%w must be a package-level error variable")
+				}
+				res = s
+			} else {
+				t.expr(x.Args[arg])
+			}
+			arg++
+		}
+		if res == "" || arg != len(x.Args) {
+			t.fail(x, "fmt.Errorf: exactly one %%w and as many verbs as arguments are required")
+		}
+		return res, kErr
+	}
+	t.fail(x, "unsupported call %s", t.p.src(x))
+	return "", 0
+}
+
+// errVar returns the value of the package-level error variable v = errors.New(…), which nothing in the package
+// assigns or takes the address of.
+func (s *loopSet) errVar(t *loopTr, v *types.Var, at ast.Node) string {
+	init, _, ok := s.p.valueSpec(v.Name())
+	c, isCall := init.(*ast.CallExpr)
+	if !ok || !isCall {
+		t.fail(at, "package variable %s is not initialised by errors.New", v.Name())
+	}
+	sel, isSel := unparen(c.Fun).(*ast.SelectorExpr)
+	if !isSel {
+		t.fail(at, "package variable %s is not initialised by errors.New", v.Name())
+	}
+	if f, ok := s.tp.info.Uses[sel.Sel].(*types.Func); !ok || f.Pkg() == nil || f.Pkg().Path() != "errors" || f.Name() != "New" {
+		t.fail(at, "package variable %s is not initialised by errors.New", v.Name())
+	}
+	for _, fn := range s.p.sortedFiles() {
+		ast.Inspect(s.p.files[fn], func(n ast.Node) bool {
+			var written []ast.Expr
+			switch x := n.(type) {
+			case *ast.AssignStmt:
+				written = x.Lhs
+			case *ast.IncDecStmt:
+				written = []ast.Expr{x.X}
+			case *ast.UnaryExpr:
+				if x.Op == token.AND {
+					written = []ast.Expr{x.X}
+				}
+			}
+			for _, w := range written {
+				if id, ok := unparen(w).(*ast.Ident); ok && s.tp.info.Uses[id] == v {
+					pos := s.p.fset.Position(id.Pos())
+					t.fail(at, "package variable %s may be modified at %s:%d; it cannot be treated as a constant", v.Name(), pos.Filename, pos.Line)
+				}
+			}
+			return true
+		})
+	}
+	return "(some " + leanString(v.Name()) + ")"
 }
 
 // pkgVar returns the Lean name of package variable v, checking that it is a slice literal of
